@@ -24,7 +24,7 @@ ASSUMPTIONS = ['secondary/supplementary alignments are outside the claim (not ge
                'worker schedules are sampled: observed completion orders are counted, not enumerated']
 MIN_NONTRIVIAL = {'quick': 40, 'thorough': 1200}
 REQUIRED_MONITORS = ['history:same_path_reused', 'eject:interval_shrunk', 'lib:dense', 'lib:placed_unmapped_pairs', 'layout:more_than_100_small_contigs', 'paths:rel', 'paths:dotrel', 'lib:secondary_or_supplementary', 'run:single_process', 'run:multiprocess', 'records:compared', 'jobs:observed', 'run:no_rejects', 'layout:large_after_small',
-                     'layout:lone_small_contig', 'lib:unmapped_pairs', 'lib:half_mapped', 'lib:orphans']
+                     'layout:lone_small_contig', 'lib:unmapped_pairs', 'lib:half_mapped', 'lib:orphans', 'lib:mates_on_two_contigs', 'lib:input_records_with_qcfail_bit', 'lib:hard_clipped_fragments']
 SHARD_TIMEOUT = {'quick': 900, 'thorough': 7200}
 
 
@@ -61,7 +61,10 @@ def contig_layout(r):
     return order, style
 
 
+# kinds of fragments with both mates in the file: the mate number is part of the record's identity
+MATED = ('pair', 'same_orientation', 'half_mapped', 'split')
 DENSE = [False]
+HARD = [0]
 MANY = [False]
 PLACED = [0]
 
@@ -100,6 +103,8 @@ def build_library(r, case_id, method):
                                              single_end=r.random() < 0.1, dup_flag=r.random() < 0.1)
                     if fr is None:
                         continue
+                    if r.random() < 0.1 and F.add_hard_clips(r, fr):
+                        HARD[0] += 1
                     kind = 'pair'
                     # half mapped: R2 unmapped, placed at R1's position ; orphan: R2 missing from the file
                     x = r.random()
@@ -115,13 +120,31 @@ def build_library(r, case_id, method):
                     elif len(fr) == 2 and x < 0.14:
                         fr = [fr[0]] if r.random() < 0.7 else [fr[1]]
                         kind = 'orphan'
-                    elif len(fr) == 2 and method == 'chic' and x < 0.2:
+                    elif len(fr) == 2 and x < 0.19 and len(contigs) > 1 and method != 'qflag':
+                        # the mates of a pair were aligned to two different contigs
+                        other = r.choice([c for c in contigs if c[0] != name])
+                        r1, r2 = fr
+                        r2['tid'] = gen.tid(other[0])
+                        r2['pos'] = r.randrange(0, max(1, other[1] - 60))
+                        r2['flag'] &= ~2
+                        r1['flag'] &= ~2
+                        r1['next_tid'], r1['next_pos'], r1['tlen'] = r2['tid'], r2['pos'], 0
+                        r2['next_tid'], r2['next_pos'], r2['tlen'] = r1['tid'], r1['pos'], 0
+                        kind = 'split'
+                        if other not in with_reads:
+                            with_reads.append(other)
+                    elif len(fr) == 2 and method == 'chic' and x < 0.25:
                         # same orientation: invalid for chic
                         fr[1]['flag'] ^= 16
                         fr[0]['flag'] ^= 32
                         kind = 'same_orientation'
                     tr['kind'] = kind if len(fr) == 2 or kind == 'orphan' else 'single_end'
                     tr['broken'] = broken
+                    if r.random() < 0.12:
+                        # the input already carries the QC-fail bit (an upstream filter set it): still the same record, same mate number
+                        for x_ in fr:
+                            x_['flag'] |= 512
+                        tr['input_qcfail'] = True
                     recs.extend(fr)
                     truths[rid] = tr
                     rid += 1
@@ -189,7 +212,7 @@ def input_keys(gen, recs, truths):
             continue
         rid = F.id_from_name(rec['name'])
         t = truths[rid]
-        with_mate = t.get('kind') in ('pair', 'same_orientation')
+        with_mate = t.get('kind') in MATED
         contig = gen.refs[rec['tid']][0] if rec.get('tid', -1) >= 0 else None
         keys[(rid, rec['seq'], tuple(rec['qual']), contig, rec.get('pos', -1), rec.get('cigar'),
               ((2 if rec['flag'] & 128 else 1) if with_mate else 0))] += 1
@@ -205,6 +228,8 @@ def run_case(case):
     gen, recs, truths, style, with_reads = build_library(r, case['i'] + 1, method)
     MANY[0] = False
     acc.count('lib:dense', 1 if DENSE[0] else 0)
+    acc.count('lib:hard_clipped_fragments', HARD[0])
+    HARD[0] = 0
     acc.count('lib:placed_unmapped_pairs', PLACED[0])
     PLACED[0] = 0
     if not recs:
@@ -219,6 +244,8 @@ def run_case(case):
     acc.count('lib:unmapped_pairs', kinds.get('unmapped', 0))
     acc.count('lib:half_mapped', kinds.get('half_mapped', 0))
     acc.count('lib:orphans', kinds.get('orphan', 0))
+    acc.count('lib:mates_on_two_contigs', kinds.get('split', 0))
+    acc.count('lib:input_records_with_qcfail_bit', sum(1 for t in truths.values() if t.get('input_qcfail')))
     acc.count('lib:secondary_or_supplementary', sum(1 for x in recs if x.get('_supplementary')))
     lens = dict(gen.refs)
     order_with_reads = [n for n, _ in gen.refs if n in with_reads]
@@ -300,14 +327,14 @@ def run_case(case):
                 elif k == 'orphan':
                     # an orphan R2 has no R1: invalid ; an orphan R1 alone is a valid single-end fragment
                     pass
-            undecided = set(rid for rid, t in truths.items() if t.get('kind') in ('orphan', 'half_mapped'))
+            undecided = set(rid for rid, t in truths.items() if t.get('kind') in ('orphan', 'half_mapped', 'split') or t.get('input_qcfail'))
             expect = Counter({k: v for k, v in expect.items() if k[0] not in drop and k[0] not in undecided})
         got = Counter()
         for a in out_recs:
             rid = F.id_from_name(a.query_name)
             t = truths.get(rid, {})
-            with_mate = t.get('kind') in ('pair', 'same_orientation')
-            if no_rejects and t.get('kind') in ('orphan', 'half_mapped'):
+            with_mate = t.get('kind') in MATED
+            if no_rejects and (t.get('kind') in ('orphan', 'half_mapped', 'split') or t.get('input_qcfail')):
                 continue
             got[rec_key(a, with_mate)] += 1
         acc.count('records:compared', sum(expect.values()))
